@@ -3,40 +3,74 @@
   declarative dispatch (`Edn.Spec.dispatchV`) applied to the tree the same input reads to
   without a registry: same value, same call log in the same order, same error with the same
   range when a handler fails, a tag is unknown in error mode, or handler results collide.
+
+  The work is in `DispatchAux1` (call log and discard mode), `DispatchAux2` (equations of the
+  declarative side, cache erasure, shape of the collections the reader builds) and
+  `DispatchAux3` (hypotheses on handlers `NiceHandler` / `NiceRegistry`, `SameUpToCache`, and
+  the simulation `reader_dispatch` by induction on the fuel).
+
+  Statement change against the skeleton (needed, see the counterexample): `dispatchV` is
+  applied to `eraseCache v0`, not to `v0`.  The registry-free tree `v0` of a set or map with
+  more than `linearThreshold` (16) elements carries the hash caches the duplicate check
+  filled in; `dispatchV` rebuilds a collection around the handler results *with the old
+  header*, i.e. with the cached hash of the collection before dispatch, and the hashed
+  duplicate strategy (and the cached-hash short circuit of `equal`) then compares stale
+  hashes.  Concretely (checked by `#eval`, configuration `⟨false, false⟩`, mode 0, `foo` and
+  `bar` both the constant handler returning the integer 7):
+
+      #{[#foo 1] [#bar 1] 3 4 5 6 7 8 9 10 11 12 13 14 15 16 17 18}
+
+  * read with the registry: error DUPLICATE_ELEMENT, offsets 0 … 61, two calls
+    (the two elements `[7]` collide);
+  * `dispatchV cfg reg 0 v0`: `(2 calls, .ok _)` — the two vectors keep the cached hashes of
+    `[#foo 1]` and `[#bar 1]`, which differ, so `hasDupHashed` never compares them;
+  * `dispatchV cfg reg 0 (eraseCache v0)`: `(2 calls, .error (.duplicateElement, 61, 0))`,
+    which is the read's answer (remaining-length coordinates 61, 0 = offsets 0, 61).
+
+  This is an artefact of replaying the dispatch on a finished tree, not a property of the C
+  code (there the handlers run during the read, before any cache is filled).
 -/
 import Edn.Spec.Dispatch
 import Edn.Spec.Eqv
 import Edn.Proofs.Fuel
 import Edn.Proofs.ReaderInv
 import Edn.Proofs.Equal
+import Edn.Proofs.DispatchAux3
 
 namespace Edn.Proofs
-open Edn.Model Edn.Spec
+open Edn.Model Edn.Spec Edn.Generated
 
-/-- what is assumed of a handler function: it does not look at hash-cache cells (they record
-    only whether somebody asked for a hash before), and it returns well-formed values with
-    valid caches of bounded depth when given such values.  (The C handlers build their results
-    through the public constructors, which start with an empty cache.) -/
-structure NiceHandler (cfg : Cfg) (hd : Handler) : Prop where
-  cacheBlind : ∀ v w, eraseCache v = eraseCache w →
-    (hd.run v).map eraseCache = (hd.run w).map eraseCache
-  wellFormed : ∀ v r, WF cfg v → cacheOK cfg v = true → hd.run v = some r →
-    WF cfg r ∧ cacheOK cfg r = true ∧ depth r ≤ depth v + 1
+/-- the identity handler is nice -/
+example (cfg : Cfg) (nm : String) : NiceHandler cfg ⟨nm, fun v => some v⟩ where
+  cacheBlind := fun v w h => by
+    show some (eraseCache v) = some (eraseCache w)
+    rw [h]
+  wellFormed := fun v r hw hcv hr => by
+    have : v = r := Option.some.inj hr
+    subst this
+    exact ⟨hw, hcv, Nat.le_succ _⟩
 
-def NiceRegistry (cfg : Cfg) (reg : Bytes → Option Handler) : Prop :=
-  ∀ tag hd, reg tag = some hd → NiceHandler cfg hd
+/-- a handler returning a constant scalar is nice -/
+example (cfg : Cfg) (nm : String) (i : Int) : NiceHandler cfg ⟨nm, fun _ => some (.int (mkHdr 0 0) i)⟩ where
+  cacheBlind := fun _ _ _ => rfl
+  wellFormed := fun v r _ _ hr => by
+    have : Val.int (mkHdr 0 0) i = r := Option.some.inj hr
+    subst this
+    exact ⟨trivial, rfl, Nat.zero_le _⟩
 
-/-- values equal up to cache cells -/
-def SameUpToCache (a b : Val) : Prop := eraseCache a = eraseCache b
+/-- a handler that always fails is nice -/
+example (cfg : Cfg) (nm : String) : NiceHandler cfg ⟨nm, fun _ => none⟩ where
+  cacheBlind := fun _ _ _ => rfl
+  wellFormed := fun _ _ _ _ hr => by cases hr
 
 /-- Top level.  If the input reads to `v0` without a registry, then with the registry `reg`
-    and default mode `opts.mode` the read returns what `dispatchV` computes from `v0`: the
-    value (up to cache cells) and exactly the calls, or the error with its range and the calls
-    made until then. -/
+    and default mode `opts.mode` the read returns what `dispatchV` computes from `v0` (with
+    its cache cells emptied, see the file header): the value (up to cache cells) and exactly
+    the calls, or the error with its range and the calls made until then. -/
 theorem read_with_registry (cfg : Cfg) (hc : cfg.clj = false) (opts : Opts) (reg : Bytes → Option Handler)
     (hn : NiceRegistry cfg reg) (input : Bytes) (v0 : Val)
     (h0 : (read cfg { opts with registry := none } input).out = .value v0) :
-    match dispatchV cfg reg opts.mode v0 with
+    match dispatchV cfg reg opts.mode (eraseCache v0) with
     | (calls, .ok v) =>
       ∃ v', (read cfg { opts with registry := some reg } input).out = .value v' ∧ SameUpToCache v' v ∧
         (read cfg { opts with registry := some reg } input).calls = calls
@@ -44,6 +78,40 @@ theorem read_with_registry (cfg : Cfg) (hc : cfg.clj = false) (opts : Opts) (reg
       (∃ es ee, (read cfg { opts with registry := some reg } input).out = .error code es ee ∧
         es.offset = input.length - s ∧ ee.offset = input.length - e) ∧
       (read cfg { opts with registry := some reg } input).calls = calls := by
-  sorry
+  have hsim := (reader_dispatch cfg opts reg hc hn (readFuel input)).1 0 { rest := input } [] (Nat.zero_le _)
+  unfold Edn.Model.read at h0 ⊢
+  simp only [] at h0 ⊢
+  cases hr : readValue { cfg := cfg, opts := { opts with registry := none } } (readFuel input) 0 false
+      { rest := input } with
+  | closer st =>
+    rw [hr] at h0
+    simp only [] at h0
+    cases h0
+  | err e st =>
+    rw [hr] at h0
+    simp only [] at h0
+    repeat' split at h0
+    all_goals cases h0
+  | ok v st0 =>
+    rw [hr] at h0
+    simp only [] at h0
+    cases h0
+    rw [show readValue (R0 cfg opts) (readFuel input) 0 false { rest := input } = .ok v0 st0 from hr] at hsim
+    change PostR cfg 0 [] st0.rest _ (dispatchV cfg reg opts.mode (eraseCache v0)) at hsim
+    rcases hdv : dispatchV cfg reg opts.mode (eraseCache v0) with ⟨calls, ⟨code, s, e⟩ | v⟩
+    · rw [hdv] at hsim
+      obtain ⟨hne, st', hr1, hcalls⟩ := hsim
+      simp only []
+      rw [show readValue { cfg := cfg, opts := { opts with registry := some reg } } (readFuel input) 0 false
+        { rest := input } = .err (mkErr code (some s) (some e)) st' from hr1]
+      simp only []
+      rw [if_neg (by simp [mkErr]), if_neg (by simp [mkErr])]
+      exact ⟨⟨_, _, rfl, rfl, rfl⟩, by rw [hcalls]; rfl⟩
+    · rw [hdv] at hsim
+      obtain ⟨_, v', hr1, hex, _⟩ := hsim
+      simp only []
+      rw [show readValue { cfg := cfg, opts := { opts with registry := some reg } } (readFuel input) 0 false
+        { rest := input } = .ok v' { rest := st0.rest, calls := [] ++ calls } from hr1]
+      exact ⟨v', rfl, hex, rfl⟩
 
 end Edn.Proofs
